@@ -2,6 +2,7 @@ CONSTANTS
   Families = {"roaring"}
   Entries = {"unmarshal", "irb_set_slice", "irb_clear_slice", "irb_set_btree", "irb_clear_btree", "frag_open"}
   SrvEntries = {"api_import_set", "api_import_clear", "api_import_views", "http_import_set", "http_import_clear"}
+  CtlEntries = {}
   PqlEntries = {}
   EnvEntries = {}
   MsgEntries = {}
